@@ -3,6 +3,10 @@ import Mathlib.Tactic.Linarith
 import BioscrapeModel.Proofs.Laws
 import BioscrapeModel.Properties.C05
 import BioscrapeModel.Properties.C20
+import BioscrapeModel.Properties.C06
+import Mathlib.Algebra.BigOperators.Group.Finset.Basic
+import Mathlib.Algebra.BigOperators.Ring.Finset
+import Mathlib.Tactic.Ring
 
 /-
 C10 — delayed reactions deliver their delayed part exactly once, after the delay.
@@ -106,6 +110,231 @@ theorem ssa_applies_both (g : Gen σ α) (m : SimModel α) (times : List α) (s 
   all_goals first
     | (left; rfl)
     | (right; exact ⟨_, rfl⟩)
+
+/-! ### Loop-level accounting: reported state plus still-queued deliveries accounts for every firing -/
+
+section Accounting
+open Bioscrape.C06 Finset
+
+/-- the value, under a linear functional `f` on reactions' delayed parts, of everything still in the queue:
+`Σ_slots Σ_reactions pending × f r`. -/
+def queued (q : DQ α) (f : Nat → α) : α :=
+  ∑ c ∈ range q.numCols, ∑ r ∈ range q.numRxn, q.cells c r * f r
+
+theorem queued_add (q : DQ α) (t a : α) (j : Nat) (f : Nat → α) (hn : 0 < q.numCols) (hj : j < q.numRxn) :
+    queued (q.add t j a) f = queued q f + a * f j := by
+  unfold queued DQ.add
+  simp only
+  set col := (q.slotOf t + q.start) % q.numCols with hcol
+  have hcl : col < q.numCols := Nat.mod_lt _ hn
+  have : ∀ c r, (if c = col ∧ r = j then q.cells c r + a else q.cells c r) * f r
+      = q.cells c r * f r + (if c = col then (if r = j then a * f r else 0) else 0) := by
+    intro c r
+    by_cases h1 : c = col <;> by_cases h2 : r = j <;> simp [h1, h2] <;> ring
+  simp only [this, sum_add_distrib]
+  congr 1
+  rw [sum_eq_single col]
+  · simp only [if_true]
+    rw [sum_eq_single j]
+    · simp
+    · intro b _ hb; simp [hb]
+    · intro h; exact absurd (mem_range.mpr hj) h
+  · intro b _ hb; simp [hb]
+  · intro h; exact absurd (mem_range.mpr hcl) h
+
+theorem queued_advance (q : DQ α) (f : Nat → α) (hs : q.start < q.numCols) :
+    queued q.advance f = queued q f - ∑ r ∈ range q.numRxn, q.cells q.start r * f r := by
+  unfold queued DQ.advance
+  simp only
+  have : ∀ c, (∑ r ∈ range q.numRxn, (if c = q.start then 0 else q.cells c r) * f r)
+      = (∑ r ∈ range q.numRxn, q.cells c r * f r) - (if c = q.start then ∑ r ∈ range q.numRxn, q.cells c r * f r else 0) := by
+    intro c
+    by_cases h : c = q.start <;> simp [h]
+  simp only [this, sum_sub_distrib]
+  congr 1
+  rw [sum_eq_single q.start]
+  · simp
+  · intro b _ hb; simp [hb]
+  · intro h; exact absurd (mem_range.mpr hs) h
+
+theorem dot_addScaledCol (w x c : List α) (a : α) (h1 : x.length = w.length) (h2 : c.length = w.length) :
+    dot w (addScaledCol x a c) = dot w x + a * dot w c := by
+  unfold dot addScaledCol
+  induction w generalizing x c with
+  | nil => simp
+  | cons b w ih =>
+    cases x with
+    | nil => simp at h1
+    | cons x0 x =>
+      cases c with
+      | nil => simp at h2
+      | cons c0 c =>
+        simp only [List.zipWith_cons_cons, List.sum_cons]
+        rw [ih x c (by simpa using h1) (by simpa using h2)]
+        ring
+
+theorem addScaledCol_length (x c : List α) (a : α) (h : c.length = x.length) : (addScaledCol x a c).length = x.length := by
+  simp [addScaledCol, h]
+
+/-- delivering the earliest slot adds, under `w`, each pending amount times `w · D_r`. -/
+theorem dot_deliver_aux (w : List α) (D : List (List Int)) (amts : List α) (n : Nat)
+    (hD : ∀ r, r < n → (colOf (α := α) D r).length = w.length) :
+    ∀ (k : Nat) (x : List α), k ≤ n → x.length = w.length →
+      ((List.range k).foldl (fun x r => addScaledCol x (amts.getD r 0) (colOf D r)) x).length = w.length ∧
+      dot w ((List.range k).foldl (fun x r => addScaledCol x (amts.getD r 0) (colOf D r)) x)
+        = dot w x + ∑ r ∈ range k, amts.getD r 0 * dot w (colOf D r) := by
+  intro k
+  induction k with
+  | zero => intro x _ hx; simp [hx]
+  | succ k ih =>
+    intro x hk hx
+    obtain ⟨hl, hd⟩ := ih x (by omega) hx
+    rw [List.range_succ, List.foldl_append]
+    simp only [List.foldl_cons, List.foldl_nil]
+    have hc := hD k (by omega)
+    refine ⟨by rw [addScaledCol_length _ _ _ (by rw [hc, hl]), hl], ?_⟩
+    rw [dot_addScaledCol w _ _ _ hl hc, hd, sum_range_succ]
+    ring
+
+/-- the accounted value of a loop state under the weight `w`: what `w · x` will be once everything in the queue
+has been delivered. -/
+def settled (m : SimModel α) (w : List α) (s : LoopState σ α) : α :=
+  dot w s.x + queued s.q (fun r => dot w (colOf m.D r))
+
+/-- well-formedness of a delay simulation state: vector and column lengths agree with the weight vector, the queue
+has one row per reaction, a positive number of slots and its start inside. -/
+structure AcctWF (m : SimModel α) (w : List α) (s : LoopState σ α) : Prop where
+  lenx : s.x.length = w.length
+  colsU : ∀ r, r < m.props.length → (colOf (α := α) m.U r).length = w.length
+  colsD : ∀ r, r < m.props.length → (colOf (α := α) m.D r).length = w.length
+  nrxn : s.q.numRxn = m.props.length
+  ncols : 0 < s.q.numCols
+  start : s.q.start < s.q.numCols
+
+/-- **one iteration accounts for every firing** (delay loop, no rules, any stream): the settled value under
+any linear functional `w` is unchanged, or grows by `w · (U_j + D_j)` for the one reaction `j` that fired —
+whether its delayed part was queued or applied at once, and whatever the queue delivered in this
+iteration.  Nothing is lost and nothing is applied twice. -/
+theorem delayIter_accounting (g : Gen σ α) (m : SimModel α) (times : List α) (s : LoopState σ α) (w : List α)
+    (hr : m.rules = []) (hwf : AcctWF m w s) (hbad : (delayIter g m times s).bad = false) :
+    AcctWF m w (delayIter g m times s) ∧
+    (settled m w (delayIter g m times s) = settled m w s ∨
+      ∃ j, j < m.props.length ∧
+        settled m w (delayIter g m times s) = settled m w s + (dot w (colOf m.U j) + dot w (colOf m.D j))) := by
+  have hrule : applyRules m.rules s.x s.p 1 s.t m.dt s.ruleStep = (s.x, s.p) := by simp [hr, applyRules]
+  have hdx : (delayDecide g m times s).x = s.x := by unfold delayDecide; simp [hrule]
+  unfold delayIter delayApply at hbad ⊢
+  generalize hd : delayDecide g m times s = d at hbad hdx ⊢
+  simp only at hbad ⊢
+  split_ifs at hbad ⊢ with hq hf hneg
+  · -- the queue delivers
+    have hdel := dot_deliver_aux w m.D s.q.nextReactions m.props.length hwf.colsD m.props.length d.x (le_refl _)
+      (by rw [hdx]; exact hwf.lenx)
+    refine ⟨⟨hdel.1, hwf.colsU, hwf.colsD, by simpa [DQ.advance] using hwf.nrxn, by simpa [DQ.advance] using hwf.ncols,
+      by simpa [DQ.advance] using Nat.mod_lt _ hwf.ncols⟩, Or.inl ?_⟩
+    unfold settled
+    simp only
+    rw [hdel.2, queued_advance _ _ hwf.start, hdx, hwf.nrxn]
+    have : ∀ r ∈ range m.props.length, s.q.nextReactions.getD r 0 * dot w (colOf m.D r)
+        = s.q.cells s.q.start r * dot w (colOf m.D r) := by
+      intro r hr'
+      have hr'' : r < s.q.numRxn := by rw [hwf.nrxn]; exact mem_range.mp hr'
+      simp [DQ.nextReactions, List.getD_eq_getElem?_getD, hr'']
+    rw [sum_congr rfl this]
+    ring
+  · -- a firing
+    cases hcd : computeDelay g m d.p (sampleDiscreteFrom d.a ((g d.gs).1 * d.Lambda)).toNat (g d.gs).2 with
+    | none => simp [hcd] at hbad
+    | some ds =>
+      obtain ⟨delay, gs⟩ := ds
+      simp only [hcd] at hbad ⊢
+      set j := (sampleDiscreteFrom d.a ((g d.gs).1 * d.Lambda)).toNat with hj
+      have hjlt : j < m.props.length := by
+        have hlen : d.a.length = m.props.length := by
+          rw [← hd]; unfold delayDecide; simp only [hrule]; exact propensities_length m .stoch _ _ _ _
+        rcases sampleDiscreteFrom_lt d.a ((g d.gs).1 * d.Lambda) with hlt | hnil
+        · rw [hlen] at hlt; omega
+        · exfalso
+          rw [hnil] at hneg
+          simp [sampleDiscreteFrom, sampleDiscreteFrom.go] at hneg
+      have hU := hwf.colsU j hjlt
+      have hDc := hwf.colsD j hjlt
+      have hx1 : (addCol d.x (colOf (α := α) m.U j)).length = w.length := by
+        rw [addCol_length _ _ (by rw [hU, hdx, hwf.lenx]), hdx]; exact hwf.lenx
+      split_ifs with hpos
+      · refine ⟨⟨hx1, hwf.colsU, hwf.colsD, by simpa [DQ.add] using hwf.nrxn, by simpa [DQ.add] using hwf.ncols,
+          by simpa [DQ.add] using hwf.start⟩, Or.inr ⟨j, hjlt, ?_⟩⟩
+        unfold settled
+        simp only
+        rw [dot_addCol w _ _ (by rw [hdx]; exact hwf.lenx) hU, queued_add _ _ _ _ _ hwf.ncols (by rw [hwf.nrxn]; exact hjlt), hdx]
+        ring
+      · have hx2 : (addCol (addCol d.x (colOf (α := α) m.U j)) (colOf m.D j)).length = w.length := by
+          rw [addCol_length _ _ (by rw [hDc, hx1]), hx1]
+        refine ⟨⟨hx2, hwf.colsU, hwf.colsD, hwf.nrxn, hwf.ncols, hwf.start⟩, Or.inr ⟨j, hjlt, ?_⟩⟩
+        unfold settled
+        simp only
+        rw [dot_addCol w _ _ hx1 hDc, dot_addCol w _ _ (by rw [hdx]; exact hwf.lenx) hU, hdx]
+        ring
+  · -- nothing happens
+    refine ⟨⟨by rw [hdx]; exact hwf.lenx, hwf.colsU, hwf.colsD, hwf.nrxn, hwf.ncols, hwf.start⟩, Or.inl ?_⟩
+    unfold settled
+    simp only
+    rw [hdx]
+
+/-- **whole runs**: after any number of iterations of the delay loop (no rules, any stream) the settled value
+under `w` is the initial one plus `w · (U_j + D_j)` summed over the reactions that fired, in order — reported
+state plus still-queued deliveries accounts for every firing, exactly once. -/
+theorem delay_run_accounting (g : Gen σ α) (m : SimModel α) (times : List α) (w : List α) (hr : m.rules = [])
+    (fuel : Nat) (s s' : LoopState σ α) (hwf : AcctWF m w s)
+    (hrun : runLoop (delayIter g m times) times.length fuel s = some s') (hok : s'.bad = false) :
+    AcctWF m w s' ∧ ∃ fired : List Nat, (∀ j ∈ fired, j < m.props.length) ∧
+      settled m w s' = settled m w s + (fired.map (fun j => dot w (colOf m.U j) + dot w (colOf m.D j))).sum := by
+  induction fuel generalizing s with
+  | zero =>
+    unfold runLoop at hrun
+    split at hrun
+    · exact absurd hrun (by simp)
+    · cases hrun; exact ⟨hwf, [], by simp, by simp⟩
+  | succ fuel ih =>
+    unfold runLoop at hrun
+    split at hrun
+    · by_cases hb : (delayIter g m times s).bad = false
+      · obtain ⟨hwf1, hstep⟩ := delayIter_accounting g m times s w hr hwf hb
+        obtain ⟨hwf', fired, hf, heq⟩ := ih _ hwf1 hrun
+        refine ⟨hwf', ?_⟩
+        rcases hstep with h0 | ⟨j, hj, h1⟩
+        · exact ⟨fired, hf, by rw [heq, h0]⟩
+        · refine ⟨j :: fired, ?_, ?_⟩
+          · intro k hk
+            rcases List.mem_cons.mp hk with rfl | hk'
+            · exact hj
+            · exact hf k hk'
+          · rw [heq, h1, List.map_cons, List.sum_cons]; ring
+      · have hb' : (delayIter g m times s).bad = true := by simpa using hb
+        have : runLoop (delayIter g m times) times.length fuel (delayIter g m times s) = some (delayIter g m times s) := by
+          cases fuel <;> simp [runLoop, hb']
+        rw [this] at hrun
+        cases hrun
+        exact absurd hok (by simp [hb'])
+    · cases hrun; exact ⟨hwf, [], by simp, by simp⟩
+
+/-- **conservation with delays**: a weight vector orthogonal to every net column `U_j + D_j` is conserved by
+"reported state + everything still queued" along every run of the delay simulator. -/
+theorem delay_run_conservation (g : Gen σ α) (m : SimModel α) (times : List α) (w : List α) (hr : m.rules = [])
+    (fuel : Nat) (s s' : LoopState σ α) (hwf : AcctWF m w s)
+    (horth : ∀ j, j < m.props.length → dot w (colOf m.U j) + dot w (colOf m.D j) = 0)
+    (hrun : runLoop (delayIter g m times) times.length fuel s = some s') (hok : s'.bad = false) :
+    settled m w s' = settled m w s := by
+  obtain ⟨_, fired, hf, heq⟩ := delay_run_accounting g m times w hr fuel s s' hwf hrun hok
+  rw [heq]
+  have : (fired.map (fun j => dot w (colOf m.U j) + dot w (colOf m.D j))).sum = 0 := by
+    apply List.sum_eq_zero
+    intro v hv
+    obtain ⟨j, hj, rfl⟩ := List.mem_map.mp hv
+    exact horth j (hf j hj)
+  rw [this, add_zero]
+
+end Accounting
 
 /-! ### Delay samplers as exact functions of the stream -/
 
